@@ -197,6 +197,8 @@ def compare_final(run, rule, fi, machine, res, ref_final, ref_init, dom, unknown
     B = machine.B
     P = 'processor.registers.'
     label = label or fi.qualname
+    from . import bookkeeping
+    ignore_prefix = tuple(ignore_prefix) + bookkeeping.ignore_prefixes(machine.repo, P)
     if B.AND(dom, B.NOT(res.returned)) != 0:
         run.violation(rule, fi.relpath, fi.qualname, 'termination',
                       '%s does not complete for some valid state (raises or falls into a host error)' % label)
